@@ -321,6 +321,23 @@ def run(fb, ctx, entry_keys, rule="REACH", stop=lambda k: False, crates=None, ex
     pred = fb.reachable(entry_keys, stop=stop)
     n_sites = n_dis = n_allow = 0
     used = set()
+    # An allow-listed source that moved inside its function family (into / out of a closure of the same function, e.g. a loop body
+    # that became `.map(|x| ..)`) keeps its entry: entries of the family that no current source carries are paired, in order, with
+    # the family's unlisted undischarged sources of the same kind - only when the two counts are equal.
+    fam = lambda p_: re.sub(r"(::\{closure#\d+\})+$", "", p_)
+    reloc_cache = {}
+    def relocated(skey_, s_, b_):
+        F_, what_ = fam(b_["path"]), s_["what"]
+        if (F_, what_) not in reloc_cache:
+            cur = []
+            for x_ in fb.bodies.values():
+                if fam(x_["path"]) == F_ and x_.get("blocks"):
+                    cur += [(k2, s2, x_) for k2, s2 in keyed_sites(fb, x_) if s2["what"] == what_]
+            curkeys = {k2 for k2, _, _ in cur}
+            orphans = sorted(k2 for k2, e2 in table.items() if e2.get("disposition") == "allow" and k2 not in curkeys and k2.count("|") >= 2 and fam(k2.rsplit("|", 2)[0]) == F_ and k2.rsplit("|", 2)[1] == what_)
+            unl = [k2 for k2, s2, x_ in cur if k2 not in table and not discharge(fb, x_, s2)]
+            reloc_cache[(F_, what_)] = dict(zip(unl, orphans)) if orphans and len(unl) == len(orphans) else {}
+        return reloc_cache[(F_, what_)].get(skey_)
     for key in sorted(pred):
         b = fb.bodies[key]
         if crates and b["crate"] not in crates:
@@ -342,6 +359,11 @@ def run(fb, ctx, entry_keys, rule="REACH", stop=lambda k: False, crates=None, ex
                 ctx.ok(rule, skey, where, "discharged: " + why)
                 continue
             ent = table.get(skey)
+            if ent is None:
+                old_key = relocated(skey, s, b)
+                if old_key:
+                    ent = table.get(old_key)
+                    ctx.notes.append(f"REACH: `{skey}` is the allow-listed source `{old_key}` moved inside its function")
             if ent and ent.get("disposition") == "allow":
                 broken = premise_broken(fb, ctx, ent.get("premise"))
                 if broken is None:
